@@ -134,7 +134,7 @@ def check_combinators(fx, rep, rule):
     b_ = ("in", "bytes")
     ok_all = True
 
-    def cmp(name, ref, what, params=None, opaque=opq):
+    def cmp(name, ref, what, params=None, opaque=opq, outcome=None):
         nonlocal ok_all
         p = A.one(rep, rule, "mapping::" + name, A.func(fx, "mapping", name))
         if not p:
@@ -144,7 +144,7 @@ def check_combinators(fx, rep, rule):
         if res is None:
             ok_all = False
             return None
-        bad, n = fc.compare_paths(res, ref, lambda st, out: out[1])
+        bad, n = fc.compare_paths(res, ref, outcome or (lambda st, out: out[1]))
         R1.report_cmp(rep, rule, "%s/%s" % (rule, name), fx.bodies[p], res, bad, what)
         ok_all = ok_all and not bad
         return sy, res
@@ -259,7 +259,13 @@ def check_combinators(fx, rep, rule):
         if o(("is", posn, "Some")):
             return call("core::slice::split_at", b_, S.lin_norm([(mk_payload(posn, "Some", "0"), 1)], 1))
         return call("core::slice::split_at", b_, call("core::slice::len", b_))
-    cmp("split_line", ref_split, "(line incl. its terminator byte, rest): consumes position(newline)+1 or everything")
+    def split_outcome(st, out):
+        # on a path where the cursor is known to be empty, 0 and len(cursor) are the same split point
+        v = out[1]
+        if fc.assignment(st.conds).get(("empty", b_)) is True and v == call("core::slice::split_at", b_, lit_int(0)):
+            return call("core::slice::split_at", b_, call("core::slice::len", b_))
+        return v
+    cmp("split_line", ref_split, "(line incl. its terminator byte, rest): consumes position(newline)+1 or everything", outcome=split_outcome)
     # parse_until_no_newline
     pn = A.func(fx, "mapping", "parse_until_no_newline")
     if len(pn) == 1:
